@@ -335,14 +335,7 @@ func (fv *FV) evalBinary(st *State, x *ast.BinaryExpr) Term {
 		l, r = fv.coerce(l, r)
 		if r.Sort == sInt {
 			fv.safety(st, "div["+fv.src(x)+"]", not(eq(r.S, "0")), "divisor non-zero: "+fv.src(x), x.Pos())
-			res := fv.arith(x.Op.String(), l, r, true, st, x.Pos())
-			if x.Op == token.REM && !r.Lit {
-				// name the result and give the solver the two linear case facts
-				res = fv.nameTerm(st, "rem", res)
-				fv.define(st, implies(and(app("<=", "0", l.S), app("<", l.S, r.S)), eq(res.S, l.S)))
-				fv.define(st, implies(and(app(">", r.S, "0"), app("<=", r.S, l.S), app("<", l.S, app("*", "2", r.S))), eq(res.S, app("-", l.S, r.S))))
-			}
-			return res
+			return fv.arith(x.Op.String(), l, r, true, st, x.Pos())
 		}
 		if isBV(r.Sort) {
 			fv.safety(st, "div["+fv.src(x)+"]", not(eq(r.S, fmt.Sprintf("(_ bv0 %d)", bvWidth(r.Sort)))), "divisor non-zero: "+fv.src(x), x.Pos())
@@ -552,6 +545,9 @@ func (fv *FV) evalAddrOf(st *State, x *ast.UnaryExpr) Term {
 func (fv *FV) elemPtr(a, i Term) Term {
 	fv.declare("sort:ElemPtr", "(declare-datatypes ((ElemPtr 0)) (((mk-eptr (epbase Int) (epidx Int)))))")
 	et := elemType(a.T)
+	if et == nil {
+		fv.sfail("pointer to an element of a non-slice")
+	}
 	return Term{S: fmt.Sprintf("(mk-eptr (sbase %s) (+ (soff %s) %s))", a.S, a.S, i.S), Sort: "ElemPtr", T: types.NewPointer(et)}
 }
 
